@@ -22,7 +22,7 @@ for p in props:
             "engine": "mir-rules",
             "level_claimed": {
                 "category": "other",
-                "text": "Repository-specific static rules over the type-checked, callee-resolved MIR (pre-coroutine-transform) of the current tree. " + m.EXPLANATION + " Decides the structural clauses listed; the value/history/timing clauses of the property are not decided (see DESIGN.md).",
+                "text": "Repository-specific static rules over the type-checked, callee-resolved MIR (pre-coroutine-transform) of the current tree. " + m.EXPLANATION + " Rules evaluated on every run: " + rules + ". Decides the structural clauses listed; the value/history/timing clauses of the property are not decided (see DESIGN.md).",
                 "design_ref": "DESIGN.md §5 " + pid,
             },
             "level_note": "Trusted: " + "; ".join(getattr(m, "TRUSTED", [])) + ". Assumptions: " + "; ".join(getattr(m, "ASSUMPTIONS", [])),
